@@ -13,6 +13,7 @@ import (
 
 	"github.com/sanonone/kektordb/internal/zzverif/vkit"
 	"github.com/sanonone/kektordb/pkg/persistence"
+	"github.com/sanonone/kektordb/pkg/verifhook"
 )
 
 // readPayloads returns the set of SET-command keys present in a framed log file.
@@ -183,6 +184,110 @@ func TestVerifC14Writer(t *testing.T) {
 				ctx.Distinct(fmt.Sprintf("%s/%d/%d/%d", mode, nw, per/50, covered/100))
 			}
 			ctx.Sample("case", 3, map[string]any{"mode": mode, "writers": nw, "writes_per_writer": per, "covered": covered})
+		})
+	})
+}
+
+// TestVerifC14WriterBacklog forces the schedule the free-running group rarely produces: a
+// control call that the writer goroutine picks up while acknowledged writes still sit in its
+// queue. The writer goroutine is parked at its flush point (hook lazy.flushed); meanwhile N
+// writes are acknowledged and the control call is issued; then the goroutine is released and
+// chooses between the queue and the call. Whatever it chooses, every one of the N writes was
+// acknowledged before the call was issued and must be in the file when the call returns (for
+// BeginSnapshotMode: in the file, not in the shadow buffer).
+func TestVerifC14WriterBacklog(t *testing.T) {
+	vkit.Run(t, "C14", func(ctx *vkit.Ctx) {
+		ctx.Group("backlog", ctx.N(200, 4000), func(cs *vkit.Case) {
+			defer verifhook.Reset()
+			dir := cs.TempDir()
+			path := filepath.Join(dir, "w.aof")
+			base, err := persistence.NewAOFWriter(path, vkit.Pick(cs.R, []int{0, 64, 4096, 65536}))
+			if err != nil {
+				cs.Fail("NewAOFWriter: %v", err)
+			}
+			// no ticker flush and no size-triggered flush can interfere within the case
+			lw := persistence.NewLazyAOFWriterWithConfig(base, time.Hour, time.Hour, 1<<20)
+			mode := []string{"flush", "sync", "close", "snapshot"}[cs.Idx%4]
+			n := cs.R.Range(1, 400)
+			cs.Op("mode=%s backlog=%d", mode, n)
+			parked := make(chan struct{})
+			release := make(chan struct{})
+			var once sync.Once
+			verifhook.Set("lazy.flushed", func(string, any) {
+				first := false
+				once.Do(func() { first = true })
+				if first {
+					close(parked)
+					<-release
+				}
+			})
+			if err := lw.Write(persistence.FormatCommand("SET", []byte("first"), []byte("v"))); err != nil {
+				cs.Fail("Write: %v", err)
+			}
+			flushed := make(chan error, 1)
+			go func() { flushed <- lw.Flush() }()
+			select {
+			case <-parked:
+			case <-time.After(20 * time.Second):
+				ctx.Inconclusive("the writer goroutine did not reach its flush point")
+				close(release)
+				return
+			}
+			for i := 0; i < n; i++ {
+				if err := lw.Write(persistence.FormatCommand("SET", []byte(fmt.Sprintf("b%d", i)), []byte("v"))); err != nil {
+					cs.Fail("Write %d while the writer goroutine is busy: %v", i, err)
+				}
+			}
+			done := make(chan error, 1)
+			go func() {
+				switch mode {
+				case "flush":
+					done <- lw.Flush()
+				case "sync":
+					done <- lw.Sync()
+				case "close":
+					done <- lw.Close()
+				case "snapshot":
+					done <- lw.BeginSnapshotMode()
+				}
+			}()
+			time.Sleep(time.Duration(cs.R.Range(0, 3)) * time.Millisecond) // lets the call reach the command channel; no verdict depends on it
+			close(release)
+			if err := <-flushed; err != nil {
+				cs.Fail("Flush: %v", err)
+			}
+			if err := <-done; err != nil {
+				cs.Fail("%s returned error: %v", mode, err)
+			}
+			keys, rerr := c14ReadKeys(path)
+			if rerr != nil {
+				cs.Fail("%v", rerr)
+			}
+			missing := 0
+			for i := 0; i < n; i++ {
+				if !keys[fmt.Sprintf("b%d", i)] {
+					missing++
+				}
+			}
+			if missing > 0 {
+				cs.Fail("%d of %d writes acknowledged before %s was issued are not in the file after it returned", missing, n, mode)
+			}
+			if mode == "snapshot" {
+				sh, err := lw.EndSnapshotMode()
+				if err != nil {
+					cs.Fail("EndSnapshotMode: %v", err)
+				}
+				if len(sh) != 0 {
+					cs.Fail("%d writes acknowledged before BeginSnapshotMode drifted into the shadow buffer", len(sh))
+				}
+			}
+			if mode != "close" {
+				lw.Close()
+			}
+			ctx.Count("backlog."+mode, 1)
+			ctx.Count("backlog.writes_covered", int64(n))
+			ctx.Eval(1)
+			ctx.Distinct(fmt.Sprintf("backlog/%s/%d", mode, n/8))
 		})
 	})
 }
